@@ -65,7 +65,7 @@ func runC03(outer *testing.T) func(t rapid.TB, h pktsim.History, rec *vx.Case) {
 					if len(cb) > 0 {
 						vx.Violatef(t, rec, id, "late-relay-reaches-app", "step %d: %s relay for %s after its terminal outcome (%s at step %v) committed %d callback(s) (first: %s chain %d %s seq %d); %s", i, kind, p, terminalKind(w, key), termBefore[key], len(cb), cb[0].Kind, cb[0].Chain, cb[0].ID, cb[0].Seq, pktsim.Describe(st))
 					}
-					if d := sim.Diff(st.Before, st.After); len(d) > 0 {
+					if d := stateDiff(st.Before, st.After); len(d) > 0 {
 						vx.Violatef(t, rec, id, "late-relay-changes-state", "step %d: %s relay for %s after its terminal outcome (%s at step %v) changed state %v; %s", i, kind, p, terminalKind(w, key), termBefore[key], d, pktsim.Describe(st))
 					}
 					if st.Res.OK && sim.ResultIsNoop(st.Res) {
